@@ -139,6 +139,8 @@ type interpreter struct {
 	memo    map[string]memoEntry // verifMemo results, per worker, across paths
 	randCtr int32 // deterministic stand-in for math/rand (unique tokens)
 	orderFree bool
+	shadows   []shadowRec // verifShadow registrations, per path
+	syncMaps map[*value]*[]smEntry // sync.Map model state, per path
 	fbitsMemo map[int]*smt.Term // float term -> its bit-vector variable, per path
 	orderBudget int // iterations that may still leave insertion order (deviation bounding)
 	capNondet bool
@@ -606,6 +608,8 @@ func (i *interpreter) runPath(it workItem) (newItems []workItem) {
 	i.race = nil
 	i.sched = nil
 	i.syncTab = nil
+	i.shadows = nil
+	i.syncMaps = nil
 
 	outcome := "ok"
 	var incomplete string
